@@ -285,6 +285,9 @@ class AlgDomain:
         a2 = _tonp_deep(self, args)
         k2 = {k: _tonp_deep(self, v) for k, v in kwargs.items()}
         r = func(*a2, **k2)
+        if func in (np.einsum, np.tensordot, np.dot, np.inner) and not isinstance(r, np.ndarray) and func is np.einsum:
+            z = np.empty((), dtype=object); z[()] = r          # NumPy returns a 0-d array for a full contraction
+            return SymArray(z, dt, self)
         return _wrap(r, dt, self)
 
     def real(self, s):
